@@ -54,6 +54,14 @@ def gen(g, count):
         leaves = names(g, g.r.randint(1, 4)) + [b'calories']
         rec = [x for x in rec if x not in leaves]
         book = [(n, [(g.r.choice(leaves + rec[:i]), qty(g)) for _ in range(g.r.randint(0, 4))]) for i, n in enumerate(rec)]
+        # huge and small terms that cancel in one resolved amount (1e21 + 15.625 - 1e21) are absorbed by float64 and rightly so;
+        # the model computes exactly, so such books are outside what can be compared: take the huge literals out of them
+        bm0 = spec.book_map(book)
+        if len(bm0) == len(book):
+            res0 = spec.resolved(bm0)
+            mag0 = spec.resolved({n: [(i, abs(v)) for i, v in ings] for n, ings in bm0.items()})
+            if any(m > 10 ** 9 * max(abs(v), Fraction(1, 200)) for n in res0 for (_, v), (_, m) in zip(res0[n], mag0[n])):
+                book = [(n, [(i, (Qty('0.125', Fraction(1, 8), False) if abs(q.value) >= 10 ** 6 else q)) for i, q in ings]) for n, ings in book]
         if book and g.r.random() < 0.25:
             # the same heading twice in the recipe book: the later record replaces the earlier one (one entry per recipe)
             dup = g.r.choice(book)[0]
@@ -108,16 +116,19 @@ def judge(ctx, cases, impl):
             ctx.problem('oracle', '`%s` output is not valid RFC 4180: %s' % (kind, e), c, {'out': raw.decode('utf-8', 'replace')[:800]}, signature='csv-invalid')
             continue
         if kind == 'csv log':
-            want = [(d.strftime('%Y-%m-%d'), f, q, 3) for d, ents, _ in c.meta['log'] for f, q in spec.merge_day(ents)]
+            want = [(d.strftime('%Y-%m-%d'), f, q, 3, abs(q)) for d, ents, _ in c.meta['log'] for f, q in spec.merge_day(ents)]
         elif kind == 'csv database':
-            want = [(n.decode('utf-8', 'surrogateescape'), leaf, q.value, 2) for n, ings in c.meta['book'] for leaf, q in ings]
+            want = [(n.decode('utf-8', 'surrogateescape'), leaf, q.value, 2, abs(q.value)) for n, ings in c.meta['book'] for leaf, q in ings]
         else:
-            res = spec.resolved(spec.book_map(c.meta['book']))
-            want = [(n.decode('utf-8', 'surrogateescape'), leaf, v, 2) for n in sorted(res) for leaf, v in res[n]]
+            bm = spec.book_map(c.meta['book'])
+            res = spec.resolved(bm)
+            # the size of what was added up (terms may cancel: 1e21 + 15.625 - 1e21 is 0 in float64, and rightly so)
+            mag = {(n, leaf): v for n, rows in spec.resolved({n: [(i, abs(v)) for i, v in ings] for n, ings in bm.items()}).items() for leaf, v in rows}
+            want = [(n.decode('utf-8', 'surrogateescape'), leaf, v, 2, mag.get((n, leaf), abs(v))) for n in sorted(res) for leaf, v in res[n]]
         ok = len(rows) == len(want)
         why = 'row count %d != %d' % (len(rows), len(want))
         if ok:
-            for row, (a, name, val, prec) in zip(rows, want):
+            for row, (a, name, val, prec, size) in zip(rows, want):
                 nm = name.decode('utf-8', 'surrogateescape') if isinstance(name, bytes) else name
                 if len(row) != 3 or row[0] != a or row[1] != nm:
                     ok, why = False, 'row %r, expected %r' % (row, (a, nm))
@@ -125,12 +136,12 @@ def judge(ctx, cases, impl):
                 frac = row[2].split('.')[1] if '.' in row[2] else ''
                 if len(frac) != prec or not within_half_ulp(row[2], val, prec):
                     # float64 products may be a further ulp of the *double* away; allow it only far from exactness
-                    if len(frac) != prec or abs(Fraction(row[2]) - val) > Fraction(1, 2 * 10 ** prec) + abs(val) * Fraction(1, 10 ** 12):
+                    if len(frac) != prec or abs(Fraction(row[2]) - val) > Fraction(1, 2 * 10 ** prec) + max(abs(val), size) * Fraction(1, 10 ** 12):
                         ok, why = False, 'amount %s is not %s to %d places' % (row[2], float(val), prec)
                         break
         if not ok:
             ctx.problem('oracle', '`%s` does not read back to the rows of the input: %s' % (kind, why), c,
-                        {'read_back': repr(rows)[:1500], 'expected': repr([(a, n, str(v)) for a, n, v, _ in want])[:1500]}, signature='csv-rows')
+                        {'read_back': repr(rows)[:1500], 'expected': repr([(a, n, str(v)) for a, n, v, _, _ in want])[:1500]}, signature='csv-rows')
 
 
 def run(ctx):
